@@ -292,6 +292,18 @@ mods.append({"name": "CounterLeaf", "entries": [
     e(S128, "skinny64_inc_counter", "skinny64_inc_counter", [], None, {"counter": {"bytes": 8}}),
 ]})
 
+# ---------------------------------------------------------------- vector CTR back ends: per-lane counter increments (strided counter image)
+vc = []
+for file, fn, nm, nbytes, ncols, fl in (("src/skinny128-ctr-vec128.c", "skinny128_ctr_increment", "v128c_inc", 64, 4, []),
+                                        ("src/skinny128-ctr-vec256.c", "skinny128_ctr_increment", "v256c_inc", 128, 8, ["-mavx2"]),
+                                        ("src/skinny64-ctr-vec128.c", "skinny64_ctr_increment", "v64c_inc", 64, 8, []),
+                                        ("src/mantis-ctr-vec128.c", "mantis_ctr_increment", "vmc_inc", 64, 8, [])):
+    for c in range(ncols):
+        d = e(file, fn, f"{nm}_{c}", fl, None, {"counter": {"bytes": nbytes}, "column": {"const": c}})
+        d.pop("opaque", None)
+        vc.append(d)
+mods.append({"name": "VecCounterLeaf", "entries": vc})
+
 # ---------------------------------------------------------------- argument guards of the public key/tweak setters
 guards = []
 for file, fns in ((S128, ["skinny128_set_key", "skinny128_set_tweaked_key", "skinny128_set_tweak"]),
